@@ -668,16 +668,15 @@ Proof.
   exists x, u. apply in_flat_pairs. exists (u :: us). split; left; reflexivity.
 Qed.
 
-Lemma tick_exact evs p a :
-  wf_hist evs -> sopen (spec_run evs) = true ->
-  (exists x u, In (p, (x, u)) (regs (spec_run evs))) ->
-  exists q, step (run evs) (Tick p a) = (run evs, Query q :: notifications a)
+Lemma tick_exact_sim s sp p a :
+  Sim s sp -> sopen sp = true ->
+  (exists x u, In (p, (x, u)) (regs sp)) ->
+  exists q, step s (Tick p a) = (s, Query q :: notifications a)
             /\ NoDup (flat_pairs q)
             /\ (forall e, In e q -> snd e <> [])
-            /\ (forall x u, In (x, u) (flat_pairs q) <-> In (p, (x, u)) (regs (spec_run evs))).
+            /\ (forall x u, In (x, u) (flat_pairs q) <-> In (p, (x, u)) (regs sp)).
 Proof.
-  intros Hw Hopen [x0 [u0 H0]]. destruct (Sim_run evs Hw) as [HI HR HU Ho].
-  set (s := run evs) in *. set (sp := spec_run evs) in *.
+  intros [HI HR HU Ho] Hopen [x0 [u0 H0]].
   rewrite Hopen in Ho. assert (C : closed s = false) by (destruct (closed s); [discriminate|reflexivity]).
   destruct HI as [Hk Hg _ _].
   apply HR in H0. apply in_flat_regs in H0. destruct H0 as [g [Hin _]].
@@ -694,19 +693,33 @@ Proof.
     + intros [g' [H1 H2]]. assert (g' = g) by (apply (In_unique p _ _ _ Hk H1 Hin)). subst. assumption.
 Qed.
 
-Lemma tick_stale evs p a :
-  wf_hist evs -> (forall x u, ~ In (p, (x, u)) (regs (spec_run evs))) ->
-  step (run evs) (Tick p a) = (run evs, []) \/
-  step (run evs) (Tick p a) = (run evs, [FaultSendOnClosed]).
+Lemma tick_exact evs p a :
+  wf_hist evs -> sopen (spec_run evs) = true ->
+  (exists x u, In (p, (x, u)) (regs (spec_run evs))) ->
+  exists q, step (run evs) (Tick p a) = (run evs, Query q :: notifications a)
+            /\ NoDup (flat_pairs q)
+            /\ (forall e, In e q -> snd e <> [])
+            /\ (forall x u, In (x, u) (flat_pairs q) <-> In (p, (x, u)) (regs (spec_run evs))).
+Proof. intros Hw. apply tick_exact_sim. apply Sim_run. assumption. Qed.
+
+Lemma tick_stale_sim s sp p a :
+  Sim s sp -> (forall x u, ~ In (p, (x, u)) (regs sp)) ->
+  step s (Tick p a) = (s, []) \/ step s (Tick p a) = (s, [FaultSendOnClosed]).
 Proof.
-  intros Hw Hno. destruct (Sim_run evs Hw) as [HI HR HU Ho].
-  set (s := run evs) in *. unfold step. destruct (closed s) eqn:C; [right; reflexivity|left].
+  intros [HI HR HU Ho] Hno.
+  unfold step. destruct (closed s) eqn:C; [right; reflexivity|left].
   unfold step_tick. destruct (lookup p (groups s)) as [g|] eqn:L; [|reflexivity].
   exfalso. destruct HI as [Hk Hg _ _]. pose proof (lookup_In _ _ _ L) as Lin.
   assert (Gok : group_ok g). { rewrite Forall_forall in Hg. apply (Hg _ Lin). }
   destruct (group_ok_inhabited g Gok) as [x [u Hxu]].
   apply (Hno x u). apply HR. apply in_flat_regs. exists g. split; assumption.
 Qed.
+
+Lemma tick_stale evs p a :
+  wf_hist evs -> (forall x u, ~ In (p, (x, u)) (regs (spec_run evs))) ->
+  step (run evs) (Tick p a) = (run evs, []) \/
+  step (run evs) (Tick p a) = (run evs, [FaultSendOnClosed]).
+Proof. intros Hw. apply tick_stale_sim. apply Sim_run. assumption. Qed.
 
 (* a tick never changes the state *)
 Lemma tick_state s p a : fst (step s (Tick p a)) = s.
@@ -842,6 +855,185 @@ Section BatchProofs.
     - apply batches_aux_full; [assumption|cbn [length]; lia].
   Qed.
 End BatchProofs.
+
+(* ================================================================ the monitors accept the model (no false alarm) *)
+
+From Coq Require Import Permutation.
+
+Section SetBProofs.
+  Context {A : Type} (eqb : A -> A -> bool) (eqb_eq : forall a b, eqb a b = true <-> a = b).
+
+  Lemma memb_In a l : memb eqb a l = true <-> In a l.
+  Proof.
+    unfold memb. rewrite existsb_exists. split.
+    - intros [b [Hb E]]. apply eqb_eq in E. subst. assumption.
+    - intros H. exists a. split; [assumption|apply eqb_eq; reflexivity].
+  Qed.
+
+  Lemma inclb_intro l m : (forall a, In a l -> In a m) -> inclb eqb l m = true.
+  Proof. intros H. unfold inclb. apply forallb_forall. intros a Ha. apply memb_In. apply H. assumption. Qed.
+
+  Lemma nodupb_intro l : NoDup l -> nodupb eqb l = true.
+  Proof.
+    induction l as [|a l IH]; intros H; [reflexivity|]. inversion H as [|? ? Ha Hl]; subst.
+    cbn [nodupb]. rewrite IH by assumption. rewrite andb_true_r. apply negb_true_iff.
+    destruct (memb eqb a l) eqn:E; [|reflexivity]. apply memb_In in E. contradiction.
+  Qed.
+
+  Lemma same_setb_intro l m : NoDup l -> (forall a, In a l <-> In a m) -> same_setb eqb l m = true.
+  Proof.
+    intros Hn H. unfold same_setb. rewrite !andb_true_iff. split; [split|].
+    - apply inclb_intro. intros a. apply H.
+    - apply inclb_intro. intros a. apply H.
+    - apply nodupb_intro. assumption.
+  Qed.
+End SetBProofs.
+
+Lemma spec_pairs_In sp p x u : In (x, u) (spec_pairs sp p) <-> In (p, (x, u)) (regs sp).
+Proof.
+  unfold spec_pairs. rewrite in_map_iff. split.
+  - intros [[q xu] [E H]]. cbn [snd] in E. subst xu. apply filter_In in H. destruct H as [H Eq].
+    cbn [fst] in Eq. apply N.eqb_eq in Eq. subst. assumption.
+  - intros H. exists (p, (x, u)). split; [reflexivity|]. apply filter_In. split; [assumption|]. cbn [fst]. apply N.eqb_refl.
+Qed.
+
+Lemma no_fault_open s e : closed s = false -> faulted (snd (step s e)) = false.
+Proof.
+  intros C. unfold step. rewrite C. destruct e as [x u p|x u|p a|].
+  - unfold step_add. destruct (lookup p (groups s)); reflexivity.
+  - unfold step_del. destruct (del_scan x u (groups s)) as [gs' [p|]]; reflexivity.
+  - unfold step_tick. destruct (lookup p (groups s)); [|reflexivity]. cbn [snd faulted existsb orb].
+    unfold notifications. destruct a as [l|]; [|reflexivity]. destruct l as [|e l]; [reflexivity|].
+    generalize (e :: l). intros m. induction m as [|e' m IH]; [reflexivity|]. cbn [map existsb orb]. assumption.
+  - unfold step_close. cbn [snd]. unfold faulted. induction (groups s) as [|pg r IH]; [reflexivity|]. cbn [map existsb orb]. assumption.
+Qed.
+
+Lemma ins_key_map {V W} (f : V -> W) (e : N * V) l :
+  ins_key (fst e, f (snd e)) (map (fun x => (fst x, f (snd x))) l) = map (fun x => (fst x, f (snd x))) (ins_key e l).
+Proof.
+  induction l as [|h t IH]; [reflexivity|]. cbn [map ins_key fst]. destruct (fst e <=? fst h); [reflexivity|].
+  cbn [map]. f_equal. apply IH.
+Qed.
+
+Lemma sort_key_map {V W} (f : V -> W) l :
+  sort_key (map (fun x => (fst x, f (snd x))) l) = map (fun x => (fst x, f (snd x))) (sort_key l).
+Proof.
+  unfold sort_key. induction l as [|e l IH]; [reflexivity|]. cbn [map fold_right]. rewrite IH. apply ins_key_map.
+Qed.
+
+Lemma marked_matches (m : list (N * list report)) :
+  list_eqb notify_matches (map (fun e => (fst e, map mark (snd e))) m) m = true.
+Proof.
+  induction m as [|[x rs] m IH]; [reflexivity|]. cbn [map list_eqb fst snd]. rewrite IH, andb_true_r.
+  unfold notify_matches. cbn [fst snd]. rewrite N.eqb_refl. cbn [andb].
+  induction rs as [|r rs IHr]; [reflexivity|]. cbn [map list_eqb]. rewrite IHr, andb_true_r.
+  unfold same_but_perio. destruct (mark_periodic r) as [P [E1 [E2 _]]]. rewrite E1, E2, !N.eqb_refl, P. reflexivity.
+Qed.
+
+Lemma NoDup_flat_regs gs : NoDup (keys gs) -> Forall (fun pg => group_ok (snd pg)) gs -> NoDup (flat_regs gs).
+Proof.
+  intros Hk Hg. rewrite flat_regs_flatk. apply NoDup_flatk; [assumption|].
+  rewrite Forall_forall in *. intros pg Hpg. destruct (Hg pg Hpg) as [_ [Gn Gf]].
+  rewrite flat_pairs_flatk. apply NoDup_flatk; [assumption|].
+  rewrite Forall_forall in *. intros e He. apply (Gf e He).
+Qed.
+
+Lemma mon_tickers_ok s sp : Sim s sp ->
+  mon_tickers sp {| o_queries := []; o_notifies := []; o_groups := groups s;
+                    o_tickers := N.of_nat (length (tickers s)); o_fault := false |} = true.
+Proof.
+  intros [[Hk Hg Ht Hc] HR HU Ho]. unfold mon_tickers. cbn [o_groups o_tickers].
+  rewrite !andb_true_iff. repeat split.
+  - apply (same_setb_intro reg_eqb reg_eqb_eq); [apply NoDup_flat_regs; assumption|]. intros t. symmetry. apply HR.
+  - apply forallb_forall. intros pg Hpg. rewrite Forall_forall in Hg. destruct (Hg pg Hpg) as [Gne [_ Gf]].
+    destruct pg as [p0 g]. cbn [snd] in *. destruct g as [|e0 g0]; [exfalso; apply Gne; reflexivity|]. cbn [andb].
+    apply forallb_forall. intros e He. rewrite Forall_forall in Gf. destruct (Gf e He) as [Ene _].
+    destruct e as [x0 us]. cbn [snd] in *. destruct us; [exfalso; apply Ene; reflexivity|reflexivity].
+  - apply (nodupb_intro N.eqb N.eqb_eq). assumption.
+  - apply N.eqb_eq. f_equal. rewrite Ht. apply Permutation_length. apply NoDup_Permutation.
+    + assumption.
+    + unfold spec_periods. apply NoDup_nodup.
+    + intros p. unfold spec_periods. rewrite nodup_In, in_map_iff. split.
+      * intros H. unfold keys in H. apply in_map_iff in H. destruct H as [[p' g] [E Hin]]. cbn [fst] in E. subst p'.
+        assert (Gok : group_ok g). { rewrite Forall_forall in Hg. apply (Hg _ Hin). }
+        destruct (group_ok_inhabited g Gok) as [x [u Hxu]]. exists (p, (x, u)). split; [reflexivity|].
+        apply HR. apply in_flat_regs. exists g. split; assumption.
+      * intros [[p' xu] [E H]]. cbn [fst] in E. subst p'. apply HR in H. apply in_flat_regs in H.
+        destruct H as [g [Hin _]]. apply (In_key _ _ _ Hin).
+Qed.
+
+Lemma mon_tickers_irrel sp q n g t f :
+  mon_tickers sp {| o_queries := q; o_notifies := n; o_groups := g; o_tickers := t; o_fault := f |} =
+  mon_tickers sp {| o_queries := []; o_notifies := []; o_groups := g; o_tickers := t; o_fault := false |}.
+Proof. reflexivity. Qed.
+
+Lemma mon_event_ok s sp e : Sim s sp -> ev_ok sp e -> mon_event sp e (obs_of (step s e)) = true.
+Proof.
+  intros HS Hok. pose proof (Sim_step s sp e HS Hok) as HS'. pose proof HS as HSim.
+  destruct HS as [HI HR HU Ho]. unfold mon_event. destruct (sopen sp) eqn:Open.
+  - assert (C : closed s = false) by (destruct (closed s); [discriminate|reflexivity]).
+    rewrite !andb_true_iff. split; [split; [split|]|].
+    + unfold obs_of. cbn [o_fault]. rewrite (no_fault_open s e C). reflexivity.
+    + (* tick_exact *)
+      unfold mon_tick_exact, obs_of. cbn [o_queries].
+      destruct e as [x u p|x u|p a|];
+        [ rewrite (proj1 (quiet_events s (Add x u p) ltac:(intros; discriminate))); reflexivity
+        | rewrite (proj1 (quiet_events s (Del x u) ltac:(intros; discriminate))); reflexivity
+        | 
+        | rewrite (proj1 (quiet_events s Close ltac:(intros; discriminate))); reflexivity ].
+      destruct (spec_pairs sp p) as [|w ws] eqn:W.
+      * destruct (tick_stale_sim s sp p a HSim) as [E|E].
+        { intros x u H. apply spec_pairs_In in H. rewrite W in H. destruct H. }
+        { rewrite E. reflexivity. }
+        { rewrite E. reflexivity. }
+      * destruct (tick_exact_sim s sp p a HSim Open) as [q [E [Hn [Hne Hiff]]]].
+        { destruct w as [x u]. exists x, u. apply spec_pairs_In. rewrite W. left. reflexivity. }
+        rewrite E. cbn [snd]. assert (Q : queries_of (Query q :: notifications a) = [q]).
+        { change (queries_of (Query q :: notifications a)) with (q :: queries_of (notifications a)).
+          rewrite queries_of_notifications. reflexivity. }
+        rewrite Q. rewrite andb_true_iff. split.
+        -- apply (same_setb_intro pair_eqb pair_eqb_eq); [assumption|]. intros [x u]. rewrite Hiff, <- spec_pairs_In, W. reflexivity.
+        -- apply forallb_forall. intros e0 He0. specialize (Hne e0 He0). destruct (snd e0); [exfalso; apply Hne; reflexivity|reflexivity].
+    + (* deliver *)
+      unfold mon_deliver, obs_of. cbn [o_notifies].
+      destruct e as [x u p|x u|p a|];
+        [ rewrite (proj2 (quiet_events s (Add x u p) ltac:(intros; discriminate))); reflexivity
+        | rewrite (proj2 (quiet_events s (Del x u) ltac:(intros; discriminate))); reflexivity
+        | 
+        | rewrite (proj2 (quiet_events s Close ltac:(intros; discriminate))); reflexivity ].
+      assert (Hstale : spec_pairs sp p = [] -> notifies_of (snd (step s (Tick p a))) = []).
+      { intros W. destruct (tick_stale_sim s sp p a HSim) as [E|E]; [|rewrite E; reflexivity|rewrite E; reflexivity].
+        intros x u H. apply spec_pairs_In in H. rewrite W in H. destruct H. }
+      assert (Hlive : spec_pairs sp p <> [] -> notifies_of (snd (step s (Tick p a))) =
+                      match a with Some l => map (fun e => (fst e, map mark (snd e))) l | None => [] end).
+      { intros W. destruct (spec_pairs sp p) as [|[x u] ws] eqn:W'; [exfalso; apply W; reflexivity|].
+        destruct (tick_exact_sim s sp p a HSim Open) as [q [E _]].
+        { exists x, u. apply spec_pairs_In. rewrite W'. left. reflexivity. }
+        rewrite E. cbn [snd]. change (notifies_of (Query q :: notifications a)) with (notifies_of (notifications a)).
+        apply notifies_of_notifications. }
+      destruct a as [[|r rest]|].
+      * destruct (spec_pairs sp p) eqn:W; [rewrite Hstale by reflexivity; reflexivity|].
+        rewrite Hlive by discriminate. reflexivity.
+      * destruct (spec_pairs sp p) eqn:W; [rewrite Hstale by reflexivity; reflexivity|].
+        rewrite Hlive by discriminate. rewrite sort_key_map. apply marked_matches.
+      * destruct (spec_pairs sp p) eqn:W; [rewrite Hstale by reflexivity; reflexivity|].
+        rewrite Hlive by discriminate. reflexivity.
+    + unfold obs_of. rewrite mon_tickers_irrel. apply mon_tickers_ok. assumption.
+  - assert (C : closed s = true) by (destruct (closed s); [reflexivity|discriminate]).
+    unfold step. rewrite C. unfold obs_of. cbn [fst snd o_queries o_notifies o_groups o_tickers queries_of notifies_of flat_map app].
+    destruct HI as [_ _ Ht Hc]. rewrite (Hc C). rewrite Ht, (Hc C). reflexivity.
+Qed.
+
+Lemma mon_from_ok evs : forall s sp, Sim s sp -> wf_from sp evs ->
+  mon_from sp evs (map obs_of (trace_from s evs)) = true.
+Proof.
+  induction evs as [|e r IH]; intros s sp HS Hw; [reflexivity|].
+  cbn [wf_from] in Hw. destruct Hw as [Hok Hw]. cbn [trace_from map mon_from].
+  rewrite (mon_event_ok s sp e HS Hok). cbn [andb]. apply IH; [apply Sim_step; assumption|assumption].
+Qed.
+
+Lemma monitor_accepts_model evs : wf_hist evs -> monitor evs (map obs_of (trace evs)) = true.
+Proof. intros H. apply mon_from_ok; [apply Sim_init|assumption]. Qed.
 
 (* ================================================================ T-gen: the source shapes the model was written for *)
 
